@@ -164,8 +164,9 @@ struct Exec {
       const std::string& nm = op.name;
       auto lv = live();
       auto pick = [&](long a) -> long { return lv.empty() ? -1 : (long)lv[a % lv.size()]; };
-      if (nm == "ins") {
-        DCol c = gen_col((uint64_t)op.arg(0)); api_insert(m, c); note_inserted(c);
+      if (nm == "ins" || nm == "ins_dup") {
+        DCol c = gen_col((uint64_t)op.arg(0));
+        if (nm == "ins_dup") { long t = pick(op.arg(0)); if (t < 0) { r.skipped(); continue; } c = mcol((unsigned)t); r.count("probe.insert_duplicate_column"); } api_insert(m, c); note_inserted(c);
         if constexpr (COMP) { cls.push_back(next_cls); content[next_cls] = c; ++next_cls; set_col(next_index, c); } else cols[next_index] = c;
         ++next_index; r.mutated = true;
         if (model::is_zero(c, P)) r.count("probe.insert_empty_column");
